@@ -148,6 +148,7 @@ class BehavioralRTLIRToVVisitorL2( BehavioralRTLIRToVVisitorL1 ):
     inc_op   = '-' if node.step._value < 0 else '+'
 
     step_abs = s.visit( node.step )
+    guard    = ''
     if node.step._value < 0:
       if step_abs[0] == '-':
         step_abs = step_abs[1:]
@@ -155,15 +156,18 @@ class BehavioralRTLIRToVVisitorL2( BehavioralRTLIRToVVisitorL1 ):
         # The step is a negative constant, not a negated literal: its
         # translation is a two's complement and not a magnitude
         step_abs = str( -int( node.step._value ) )
+      # The counter is unsigned: stepping below zero wraps it around to a
+      # value above its start value instead of ending the loop
+      guard = f" && {loop_var} <= {start}"
 
     for stmt in node.body:
       body.extend( s.visit( stmt ) )
     make_indent( body, 1 )
 
     for_begin = \
-      'for ( int unsigned {v} = {s}; {v} {comp} {t}; {v} {inc}= {stp} ){begin}'.format(
+      'for ( int unsigned {v} = {s}; {v} {comp} {t}{guard}; {v} {inc}= {stp} ){begin}'.format(
       v = loop_var, s = start, t = end, stp = step_abs,
-      comp = cmp_op, inc = inc_op, begin = begin
+      comp = cmp_op, inc = inc_op, begin = begin, guard = guard
     )
 
     # Assemble for statement
